@@ -143,7 +143,7 @@ type Stats struct {
 	Machinery   string         `json:"machinery,omitempty"`
 	// SetHash is the XOR over all generated scenarios of a hash of (world, parameters): two runs with the same
 	// VERIF_SEED must report the same value (the set of scenarios is a function of the seed alone).
-	SetHash uint64 `json:"set_hash"`
+	SetHash     uint64 `json:"set_hash"`
 	curVec      uint64
 	curPermuted bool
 }
@@ -272,20 +272,26 @@ type quietTB struct {
 
 type failNow struct{}
 
-func (q *quietTB) Helper()                           {}
-func (q *quietTB) Name() string                      { return "crssim" }
-func (q *quietTB) Logf(format string, args ...any)   { q.logs = append(q.logs, fmt.Sprintf(format, args...)) }
+func (q *quietTB) Helper()      {}
+func (q *quietTB) Name() string { return "crssim" }
+func (q *quietTB) Logf(format string, args ...any) {
+	q.logs = append(q.logs, fmt.Sprintf(format, args...))
+}
 func (q *quietTB) Log(args ...any)                   { q.logs = append(q.logs, fmt.Sprint(args...)) }
 func (q *quietTB) Skipf(format string, args ...any)  { panic(failNow{}) }
 func (q *quietTB) Skip(args ...any)                  { panic(failNow{}) }
 func (q *quietTB) SkipNow()                          { panic(failNow{}) }
 func (q *quietTB) Errorf(format string, args ...any) { q.failed = true; q.Logf(format, args...) }
 func (q *quietTB) Error(args ...any)                 { q.failed = true; q.Log(args...) }
-func (q *quietTB) Fatalf(format string, args ...any) { q.failed = true; q.Logf(format, args...); panic(failNow{}) }
-func (q *quietTB) Fatal(args ...any)                 { q.failed = true; q.Log(args...); panic(failNow{}) }
-func (q *quietTB) FailNow()                          { q.failed = true; panic(failNow{}) }
-func (q *quietTB) Fail()                             { q.failed = true }
-func (q *quietTB) Failed() bool                      { return q.failed }
+func (q *quietTB) Fatalf(format string, args ...any) {
+	q.failed = true
+	q.Logf(format, args...)
+	panic(failNow{})
+}
+func (q *quietTB) Fatal(args ...any) { q.failed = true; q.Log(args...); panic(failNow{}) }
+func (q *quietTB) FailNow()          { q.failed = true; panic(failNow{}) }
+func (q *quietTB) Fail()             { q.failed = true }
+func (q *quietTB) Failed() bool      { return q.failed }
 
 func rapidCheck(seed uint64, checks int, shrink time.Duration, prop func(*rapid.T)) (failed bool, logs []string) {
 	_ = flag.Set("rapid.seed", fmt.Sprint(seed))
@@ -678,35 +684,35 @@ func writeEvidence(prop *Property, verif, tier string, seed int64, s *Stats, wal
 		samples = []any{"no non-trivial scenario was generated"}
 	}
 	cov := map[string]any{
-		"evaluations":                   s.Scenarios,
-		"distinct_nontrivial":           len(s.Distinct),
-		"rule":                          prop.Rule,
-		"samples":                       samples,
-		"traces_validated_against_impl": s.PlainAgree,
-		"child_processes":               s.Steps,
-		"uninstrumented_twin_processes": s.PlainSteps,
-		"nontrivial_scenarios":          s.Nontrivial,
-		"distinct_worlds":               len(s.Worlds),
+		"evaluations":                            s.Scenarios,
+		"distinct_nontrivial":                    len(s.Distinct),
+		"rule":                                   prop.Rule,
+		"samples":                                samples,
+		"traces_validated_against_impl":          s.PlainAgree,
+		"child_processes":                        s.Steps,
+		"uninstrumented_twin_processes":          s.PlainSteps,
+		"nontrivial_scenarios":                   s.Nontrivial,
+		"distinct_worlds":                        len(s.Worlds),
 		"distinct_effective_permutation_vectors": len(s.PermVectors),
-		"map_events_n_ge_2_per_site":    s.MapEvents,
-		"map_events_permuted_per_site":  s.MapPermuted,
-		"dir_listing_events":            s.DirEvents,
-		"dir_listing_events_permuted":   s.DirPermuted,
-		"faults_fired":                  s.Faults,
-		"simulated_network_requests":    s.NetRequests,
-		"probes":                        s.Probes,
-		"exit_codes_seen":               s.ExitCodes,
-		"known_finding_hits":            s.Known,
-		"scenarios_per_hour":            int(perHour),
-		"simulated_history_steps":       s.Steps,
-		"simulated_time":                "not applicable as a duration: the program has no timers, sleeps, retries or deadlines; every child process sees one fixed simulated instant (clock seam), varied between the steps / alternatives of a scenario",
-		"prng_values_per_hour":          int(perHour),
-		"workers":                       workers,
-		"scenario_set_hash":             fmt.Sprintf("%016x", s.SetHash),
-		"stopped_early_by_time_cap":     s.EarlyStop,
-		"exhaustive":                    false,
-		"real_and_stub_components":      prop.RealStub,
-		"replay_files":                  s.ReplayFiles,
+		"map_events_n_ge_2_per_site":             s.MapEvents,
+		"map_events_permuted_per_site":           s.MapPermuted,
+		"dir_listing_events":                     s.DirEvents,
+		"dir_listing_events_permuted":            s.DirPermuted,
+		"faults_fired":                           s.Faults,
+		"simulated_network_requests":             s.NetRequests,
+		"probes":                                 s.Probes,
+		"exit_codes_seen":                        s.ExitCodes,
+		"known_finding_hits":                     s.Known,
+		"scenarios_per_hour":                     int(perHour),
+		"simulated_history_steps":                s.Steps,
+		"simulated_time":                         "not applicable as a duration: the program has no timers, sleeps, retries or deadlines; every child process sees one fixed simulated instant (clock seam), varied between the steps / alternatives of a scenario",
+		"prng_values_per_hour":                   int(perHour),
+		"workers":                                workers,
+		"scenario_set_hash":                      fmt.Sprintf("%016x", s.SetHash),
+		"stopped_early_by_time_cap":              s.EarlyStop,
+		"exhaustive":                             false,
+		"real_and_stub_components":               prop.RealStub,
+		"replay_files":                           s.ReplayFiles,
 	}
 	ev := map[string]any{
 		"property_id": prop.ID,
